@@ -225,10 +225,17 @@ def evalRecipe (adj : List (Key × Comp)) (r : (Nat × Nat) × (Nat × Nat)) : C
     (lookup p.2 t).getD []
   merge (src r.1) (src r.2)
 
-/-- `NEUTRAL_FRAGMENT_COMPOSITION_ADJUSTMENTS` -/
-def neutralAdj : List (Key × Comp) := Gen.neutralAdjRecipe.map (fun r => (r.1, evalRecipe [] r.2))
+/-- `NEUTRAL_FRAGMENT_COMPOSITION_ADJUSTMENTS`: the transcribed `merge_dicts` recipes evaluated here, or - when the source is not
+of that shape (`Gen.neutralAdjByValue = some _`) - the table the module evaluates to -/
+def neutralAdj : List (Key × Comp) :=
+  match Gen.neutralAdjByValue with
+  | some t => t
+  | none => Gen.neutralAdjRecipe.map (fun r => (r.1, evalRecipe [] r.2))
 /-- `FRAGMENT_ION_COMPOSITION_ADJUSTMENTS` -/
-def ionAdj : List (Key × Comp) := Gen.ionAdjRecipe.map (fun r => (r.1, evalRecipe neutralAdj r.2))
+def ionAdj : List (Key × Comp) :=
+  match Gen.ionAdjByValue with
+  | some t => t
+  | none => Gen.ionAdjRecipe.map (fun r => (r.1, evalRecipe neutralAdj r.2))
 
 /-- mass of a constant composition (`chem_mass` at import time; the constants contain known elements only) -/
 def constMass (mono : Bool) (c : Comp) : Rat := chemMassL (fun e => (elemMass mono e).getD 0) c
